@@ -1,7 +1,7 @@
 SPECIFICATION Spec
 CONSTANTS
   MaxRef = 60
-  MaxMut = 3
+  MaxMut = 2
   Roots <- AllRoots
   ShallowChildDict = FALSE
   SharedPath = FALSE
